@@ -152,6 +152,16 @@ def listed():
     add("DMSO-like-SVI", [S6, O, O, O], [(0, 1, 2), (0, 2, 2), (0, 3, 2)])
     add("phosphine-oxide", [P5, O, C, C, C], [(0, 1, 2), (0, 2, 1), (0, 3, 1), (0, 4, 1)])
     add("butadiene", [C] * 4, [(0, 1, 2), (1, 2, 1), (2, 3, 2)])
+    add("pentatetraene", [C] * 5, [(i, i + 1, 2) for i in range(4)])
+    add("hexapentaene", [C] * 6, [(i, i + 1, 2) for i in range(5)])
+    add("heptahexaene", [C] * 7, [(i, i + 1, 2) for i in range(6)])
+    add("C3O2", [O, C, C, C, O], [(i, i + 1, 2) for i in range(4)])
+    add("C4O2", [O, C, C, C, C, O], [(i, i + 1, 2) for i in range(5)])
+    add("vinylallene", [C] * 5, [(0, 1, 2), (1, 2, 2), (2, 3, 1), (3, 4, 2)])
+    add("hexatriyne", [C] * 6, [(0, 1, 3), (1, 2, 1), (2, 3, 3), (3, 4, 1), (4, 5, 3)])
+    add("methanesulfenic-acid", [C, S2, O], [(0, 1, 1), (1, 2, 1)])
+    add("methanesulfenamide", [C, S2, N], [(0, 1, 1), (1, 2, 1)])
+    add("dimethyl-sulfide", [C, S2, C], [(0, 1, 1), (1, 2, 1)])
     add("hexatriene", [C] * 6, [(0, 1, 2), (1, 2, 1), (2, 3, 2), (3, 4, 1), (4, 5, 2)])
     add("acrolein", [C, C, C, O], [(0, 1, 2), (1, 2, 1), (2, 3, 2)])
     add("acetonitrile", [C, C, N], [(0, 1, 1), (1, 2, 3)])
